@@ -25,7 +25,7 @@ import (
 )
 
 type c10Op struct {
-	Kind     string `json:"kind"` // edit | send | recv | restart | skew
+	Kind     string `json:"kind"` // edit | del | send | recv | restart | skew
 	To       int    `json:"to,omitempty"`
 	Pick     int    `json:"pick,omitempty"`     // recv: which pending message (index modulo inbox length)
 	Keep     bool   `json:"keep,omitempty"`     // recv: leave the message in the inbox (it will be delivered again)
@@ -89,6 +89,30 @@ func c10Generate(seed uint64, tier string, index int) json.RawMessage {
 		}
 		p.Programs = append(p.Programs, prog)
 	}
+	if index%4 == 2 {
+		// deletion flavour (its own random stream, so that the other plans stay what they were): some local edits are
+		// deletions; a tombstone carries a version like any other revision, travels with its vector, meets live
+		// revisions in conflicts (the default resolver lets the tombstone win) and is edited again afterwards
+		rd := verifsim.NewRNG(seed).Fork("c10-del")
+		for rep := range p.Programs {
+			for i := range p.Programs[rep] {
+				if p.Programs[rep][i].Kind == "edit" && rd.Chance(350) {
+					p.Programs[rep][i].Kind = "del"
+				}
+			}
+		}
+	}
+	if index%16 == 10 {
+		// directed deletion flavour: replica 0 deletes what replica 1 edits concurrently; the tombstone and the live
+		// revision meet on all three replicas under a drawn resolver
+		rd := verifsim.NewRNG(seed).Fork("c10-del-directed")
+		rs := func() string { return []string{"", "lww", "lww", "local", "remote", "merge"}[rd.Intn(6)] }
+		p.Programs = [][]c10Op{
+			{{Kind: "edit"}, {Kind: "send", To: 1}, {Kind: "send", To: 2}, {Kind: "del"}, {Kind: "send", To: 1}, {Kind: "send", To: 2}, {Kind: "recv", Wait: true, Resolver: rs()}, {Kind: "edit"}, {Kind: "send", To: 1}},
+			{{Kind: "recv", Wait: true}, {Kind: "edit"}, {Kind: "send", To: 0}, {Kind: "send", To: 2}, {Kind: "recv", Wait: true, Resolver: rs()}, {Kind: "recv", Wait: true, Resolver: rs()}},
+			{{Kind: "recv", Wait: true}, {Kind: "recv", Wait: true, Resolver: rs()}, {Kind: "recv", Wait: true, Resolver: rs()}, {Kind: "edit"}, {Kind: "send", To: 0}},
+		}
+	}
 	if index%8 == 5 {
 		// directed flavour: two replicas edit concurrently, exchange, and each resolves the same conflict by a merge
 		// before the merged revisions meet; the third replica sees all of it in some order
@@ -149,6 +173,7 @@ type c10State struct {
 	vv      map[string]uint64 // classic version vector: everything this state has seen
 	mergeOf string            // "" or the pair of versions this state merged (canonical string)
 	tok     string
+	del     bool // the revision is a tombstone
 }
 
 func (st *c10State) cv() string { return fmt.Sprintf("%d@%s", st.val, st.src) }
@@ -283,6 +308,10 @@ func c10Run(env *verifsim.Env, raw json.RawMessage) *verifsim.Violation {
 			fail(verifsim.Vf("C10", "current-version", "replica %d after %s: stored current version is %d@%s, expected %s", ri, what, h.Version, h.SourceID, st.cv()))
 			return
 		}
+		if doc.IsDeleted() != st.del {
+			fail(verifsim.Vf("C10", "deleted-flag", "replica %d after %s: the stored document is deleted=%v, the revision %s it holds is deleted=%v", ri, what, doc.IsDeleted(), st.cv(), st.del))
+			return
+		}
 		flat, bad := c10Flatten(h)
 		if bad != "" {
 			fail(verifsim.Vf("C10", "source-twice", "replica %d after %s: %s (vector %#v)", ri, what, bad, h))
@@ -364,9 +393,21 @@ func c10Run(env *verifsim.Env, raw json.RawMessage) *verifsim.Violation {
 			rp.skew = int64(op.SkewMs) * int64(time.Millisecond)
 			setClock(rp)
 			rec.End(nil, nil)
-		case "edit":
-			rec := t.Begin("edit", nil)
+		case "edit", "del":
+			isDel := op.Kind == "del"
+			if isDel && (rp.cur == nil || rp.cur.del) {
+				rec := t.Begin("del-skipped", nil)
+				rec.End(nil, nil)
+				return
+			}
+			rec := t.Begin(op.Kind, nil)
 			body := Body{"tok": tok}
+			if isDel {
+				body = Body{BodyDeleted: true}
+				s.Probe("local-delete")
+			} else if rp.cur != nil && rp.cur.del {
+				s.Probe("edit-of-tombstone")
+			}
 			if d, err := coll.GetDocument(ctx, "d", DocUnmarshalSync); err == nil && d != nil {
 				body[BodyRev] = d.GetRevTreeID()
 			}
@@ -397,9 +438,9 @@ func c10Run(env *verifsim.Env, raw json.RawMessage) *verifsim.Violation {
 				return
 			}
 			rp.lastOwn = val
-			st := &c10State{src: src, val: val, vv: c10MaxVV(seen, map[string]uint64{src: val}), tok: tok}
+			st := &c10State{src: src, val: val, vv: c10MaxVV(seen, map[string]uint64{src: val}), tok: tok, del: isDel}
 			rp.cur = st
-			judgeVector(ri, "edit "+tok)
+			judgeVector(ri, op.Kind+" "+tok)
 		case "send":
 			rec := t.Begin("send", op.To)
 			defer rec.End(nil, nil)
@@ -466,6 +507,10 @@ func c10Run(env *verifsim.Env, raw json.RawMessage) *verifsim.Violation {
 			}
 			newDoc := &Document{ID: "d"}
 			newDoc.UpdateBody(m.body.ShallowCopy())
+			newDoc.Deleted = m.state.del
+			if m.state.del {
+				s.Probe("recv-tombstone")
+			}
 			newDoc.HLV = incoming
 			newDoc.RevID = m.revTree[0]
 			opts := PutDocOptions{NewDoc: newDoc, RevTreeHistory: append([]string{}, m.revTree...), NewDocHLV: incoming, ISGRWrite: true}
@@ -509,10 +554,10 @@ func c10Run(env *verifsim.Env, raw json.RawMessage) *verifsim.Violation {
 			case x.vv[y.src] >= y.val:
 				// the incoming revision has seen the local one: accepted.  The replica keeps everything it had seen (a
 				// state produced by a remote-wins or local-wins resolution knows more than its current version implies)
-				next = &c10State{src: x.src, val: x.val, vv: c10MaxVV(x.vv, y.vv), mergeOf: x.mergeOf, tok: x.tok}
+				next = &c10State{src: x.src, val: x.val, vv: c10MaxVV(x.vv, y.vv), mergeOf: x.mergeOf, tok: x.tok, del: x.del}
 			case x.mergeOf != "" && x.mergeOf == y.mergeOf:
 				// concurrent, but both record the same merge: accepted, and the replica now has seen both
-				next = &c10State{src: x.src, val: x.val, vv: c10MaxVV(x.vv, y.vv), mergeOf: x.mergeOf, tok: x.tok}
+				next = &c10State{src: x.src, val: x.val, vv: c10MaxVV(x.vv, y.vv), mergeOf: x.mergeOf, tok: x.tok, del: x.del}
 			default:
 				expected = "conflict"
 				next = y
@@ -522,16 +567,24 @@ func c10Run(env *verifsim.Env, raw json.RawMessage) *verifsim.Violation {
 				both := c10MaxVV(x.vv, y.vv)
 				winner := op.Resolver
 				if winner == "lww" {
+					// the default resolver: a tombstone wins over a live revision, otherwise the higher version
 					winner = "remote"
 					if y.val >= x.val {
 						winner = "local"
 					}
+					if y.del != x.del {
+						s.Probe("lww-tombstone-vs-live")
+						winner = "remote"
+						if y.del {
+							winner = "local"
+						}
+					}
 				}
 				switch winner {
 				case "local":
-					next = &c10State{src: y.src, val: y.val, vv: both, mergeOf: y.mergeOf, tok: y.tok}
+					next = &c10State{src: y.src, val: y.val, vv: both, mergeOf: y.mergeOf, tok: y.tok, del: y.del}
 				case "remote":
-					next = &c10State{src: x.src, val: x.val, vv: both, mergeOf: x.mergeOf, tok: x.tok}
+					next = &c10State{src: x.src, val: x.val, vv: both, mergeOf: x.mergeOf, tok: x.tok, del: x.del}
 				case "merge":
 					next = &c10State{src: rp.n.dbc.EncodedSourceID, vv: both, tok: mergedTok}
 					pair := []string{x.cv(), y.cv()}
@@ -543,7 +596,7 @@ func c10Run(env *verifsim.Env, raw json.RawMessage) *verifsim.Violation {
 				if observed == "known" || observed == "accepted" {
 					expected = observed
 					if observed == "accepted" {
-						next = &c10State{src: x.src, val: x.val, vv: c10MaxVV(x.vv, y.vv), mergeOf: x.mergeOf, tok: x.tok}
+						next = &c10State{src: x.src, val: x.val, vv: c10MaxVV(x.vv, y.vv), mergeOf: x.mergeOf, tok: x.tok, del: x.del}
 					}
 				}
 			}
@@ -570,6 +623,12 @@ func c10Run(env *verifsim.Env, raw json.RawMessage) *verifsim.Violation {
 					return
 				}
 				next.val = stored.HLV.Version
+				// whether a merge with a tombstone is stored as deleted is the resolver's and the merge code's business
+				// (the merge keeps the incoming revision's flag), not the vector's: taken from storage, not judged
+				next.del = stored.IsDeleted()
+				if x.del || y.del {
+					s.Probe("merge-with-tombstone")
+				}
 				if stored.HLV.SourceID != next.src {
 					fail(verifsim.Vf("C10", "current-version", "replica %d: a merge produced current version %d@%s, the merging replica is %s", ri, stored.HLV.Version, stored.HLV.SourceID, next.src))
 					return
